@@ -79,6 +79,9 @@ func NewOperation(pi *PathItem, rawPath string, method Method, operation *openap
 	usedResponses := make(map[*Response]string)
 	for i, ro := range o.Responses.List {
 		rr := operation.Responses[ro.Name]
+		if rr == nil {
+			return nil, fmt.Errorf("response %q: is empty", ro.Name)
+		}
 
 		if rr.Ref != "" {
 			ref := rr.Ref
@@ -121,7 +124,10 @@ func NewOperationParameters(pathParams, operationParams openapi3.Parameters, com
 		Cookie:  NewMapEmpty[Ref[CookieParameter]](0),
 	}
 
-	for _, param := range append(append(openapi3.Parameters{}, pathParams...), operationParams...) {
+	for i, param := range append(append(openapi3.Parameters{}, pathParams...), operationParams...) {
+		if param == nil || param.Value == nil {
+			return zero, fmt.Errorf("parameter %d: is empty or its reference is not resolved", i)
+		}
 		switch param.Value.In {
 		case openapi3.ParameterInPath:
 			p, err := NewRefPathParam(param, components, opts)
